@@ -32,6 +32,7 @@ func init() {
 		ID: "C02",
 		Harnesses: []HarnessSpec{
 			{Dir: "root", Name: "ZZ_C02_cash", Reach: []string{"accepted", "rejected"}, Tweak: params(true)},
+			{Dir: "root", Name: "ZZ_C02_prefix", Reach: []string{"in"}, Tweak: params(true)},
 		},
 	})
 	reg(&PropSpec{
@@ -107,6 +108,7 @@ func init() {
 				c.Backend = "cvc5"
 			}},
 			{Dir: "bloom", Name: "ZZ_C09_unloaded", Reach: []string{"end"}, Tweak: bloomCfg()},
+			{Dir: "bloom", Name: "ZZ_C09_reload", Variant: "k<=2", Reach: []string{"end"}, Tweak: bloomCfg("maxk", 2)},
 			{Dir: "bloom", Name: "ZZ_C09_insert", Variant: "k<=8", Tiers: "thorough", Reach: []string{"end"}, Tweak: bloomCfg("mink", 5, "maxk", 8)},
 			{Dir: "bloom", Name: "ZZ_C09_query", Variant: "k<=50", Tiers: "thorough", Reach: []string{"end"}, Tweak: bloomCfg("mink", 5, "maxk", 50)},
 			{Dir: "bloom", Name: "ZZ_C09_murmur", Variant: "len<=36", Tiers: "thorough", Reach: []string{"end"}, Tweak: params(false, "maxlen", 36)},
@@ -257,6 +259,77 @@ func init() {
 			{Dir: "root", Name: "ZZ_C06_strict", Reach: []string{"parsed", "accepted", "rejected"}, Tweak: hdStubs()},
 		},
 	})
+	c08 := func(alloc int, kv ...interface{}) func(c *sym.HarnessCfg, tier string) {
+		return func(c *sym.HarnessCfg, tier string) {
+			c.AllocLimit = alloc
+			for i := 0; i+1 < len(kv); i += 2 {
+				c.Params[kv[i].(string)] = kv[i+1].(int)
+			}
+		}
+	}
+	chain := func(fs ...func(c *sym.HarnessCfg, tier string)) func(c *sym.HarnessCfg, tier string) {
+		return func(c *sym.HarnessCfg, tier string) {
+			for _, f := range fs {
+				f(c, tier)
+			}
+		}
+	}
+	jsonStubs := func(c *sym.HarnessCfg, tier string) {
+		c.Stubs = map[string]string{
+			"(*encoding/base64.Encoding).DecodeString":                "zzStubB64Decode",
+			"encoding/hex.DecodeString":                               "zzStubHexDecode",
+			"github.com/gcash/bchd/chaincfg/chainhash.NewHashFromStr": "zzStubNewHashFromStr",
+		}
+	}
+	reg(&PropSpec{
+		ID: "C08",
+		Harnesses: []HarnessSpec{
+			{Dir: "root", Name: "ZZ_C08_cashaddr_short", Reach: []string{"in", "accepted"}, Tweak: c08(0)},
+			{Dir: "root", Name: "ZZ_C08_address_raw", Variant: "len<=4", Reach: []string{"in"}, Tweak: chain(c08(0, "maxlen", 4), params(true))},
+			{Dir: "root", Name: "ZZ_C08_address_prefixed", Variant: "sym<=9", Reach: []string{"in"}, Tweak: chain(c08(0, "maxsym", 9), params(true))},
+			{Dir: "bloom", Name: "ZZ_C08_filterload", Reach: []string{"in", "end"}, Tweak: chain(bloomStubs("maxk", 2, "maxpushes", 1, "maxpushlen", 1), c08(0))},
+			{Dir: "bloom", Name: "ZZ_C08_newfilter", Reach: []string{"in", "end"}, Tweak: chain(bloomCfg(), func(c *sym.HarnessCfg, tier string) { c.Backend = "cvc5"; c.MaxAlloc = 1 << 33 })},
+			{Dir: "gcs", Name: "ZZ_C08_frombytes", Variant: "bytes<=3", Reach: []string{"built", "end"}, Tweak: chain(gcsCfg("maxbytes", 3), c08(4096))},
+			{Dir: "gcs", Name: "ZZ_C08_fromnbytes", Variant: "bytes<=6", Reach: []string{"built", "rejected"}, Tweak: chain(gcsCfg("maxbytes", 6), c08(4096))},
+			{Dir: "jsonpb", Name: "ZZ_C08_convert", Variant: "depth2,width2", Reach: []string{"in", "end"}, Tweak: chain(jsonStubs, c08(0, "depth", 2, "width", 2))},
+		},
+	})
+	b58Stubs := func(kv ...interface{}) func(c *sym.HarnessCfg, tier string) {
+		return func(c *sym.HarnessCfg, tier string) {
+			c.Stubs = map[string]string{
+				"github.com/gcash/bchutil/base58.Encode": "zzStubEncode",
+				"github.com/gcash/bchutil/base58.Decode": "zzStubDecode",
+			}
+			for i := 0; i+1 < len(kv); i += 2 {
+				c.Params[kv[i].(string)] = kv[i+1].(int)
+			}
+		}
+	}
+	realB58 := func(kv ...interface{}) func(c *sym.HarnessCfg, tier string) {
+		return func(c *sym.HarnessCfg, tier string) {
+			c.RealBase58 = true
+			for i := 0; i+1 < len(kv); i += 2 {
+				c.Params[kv[i].(string)] = kv[i+1].(int)
+			}
+		}
+	}
+	reg(&PropSpec{
+		ID: "C07",
+		Harnesses: []HarnessSpec{
+			{Dir: "base58", Name: "ZZ_C07_b58_bytes", Variant: "bytes<=5", Reach: []string{"end"}, Tweak: realB58("maxbytes", 5)},
+			{Dir: "base58", Name: "ZZ_C07_b58_chars", Variant: "chars<=4", Reach: []string{"end", "foreign"}, Tweak: realB58("maxchars", 4)},
+			{Dir: "base58", Name: "ZZ_C07_check", Reach: []string{"roundtrip", "accepted", "rejected"}, Tweak: b58Stubs("maxpayload", 6, "maxdecoded", 8)},
+			{Dir: "bech32", Name: "ZZ_C07_bech32_roundtrip", Variant: "hrp<=2,data<=3", Reach: []string{"end"}, Tweak: params(false, "maxhrp", 2, "maxdata", 3)},
+			{Dir: "bech32", Name: "ZZ_C07_bech32_strict", Variant: "hrp<=2,data<=2", Reach: []string{"accepted", "rejected"}, Tweak: params(false, "maxhrp", 2, "maxdata", 2)},
+			{Dir: "bech32", Name: "ZZ_C07_bech32_strict", Variant: "hrp<=3,data<=3", Tiers: "thorough", Reach: []string{"accepted", "rejected"}, Tweak: params(false, "maxhrp", 3, "maxdata", 3)},
+			{Dir: "bech32", Name: "ZZ_C07_bech32_length", Reach: []string{"accepted", "rejected"}, Tweak: params(false)},
+			{Dir: "bech32", Name: "ZZ_C07_convertbits", Reach: []string{"end"}, Tweak: params(false, "maxbytes", 4)},
+			{Dir: "bech32", Name: "ZZ_C07_convertbits_strict", Reach: []string{"converted", "accepted"}, Tweak: params(false, "maxgroups", 5)},
+			{Dir: "base58", Name: "ZZ_C07_b58_bytes", Variant: "bytes<=10", Tiers: "thorough", Reach: []string{"end"}, Tweak: realB58("maxbytes", 10)},
+			{Dir: "base58", Name: "ZZ_C07_b58_chars", Variant: "chars<=8", Tiers: "thorough", Reach: []string{"end"}, Tweak: realB58("maxchars", 8)},
+			{Dir: "bech32", Name: "ZZ_C07_bech32_roundtrip", Variant: "hrp<=4,data<=10", Tiers: "thorough", Reach: []string{"end"}, Tweak: params(false, "maxhrp", 4, "maxdata", 10)},
+		},
+	})
 	meta("C01", []string{
 		"SHA-256 and RIPEMD-160 are uninterpreted functions (same symbol inside the code under test and in the harness reference)",
 		"the CashAddr reference encoder in harness/root/common.go is a correct transcription of the specification",
@@ -283,6 +356,41 @@ func init() {
 		"MurmurHash3 uninterpreted, x % m abstracted as in C09",
 	}, []string{"block scanning (GetMatchedIndices) and intra-block spend graphs", "real script parsing", "transactions larger than the tier bound"},
 		"quick: HashFuncs<=1, <=1 output, <=1 input, <=1 push of <=1 byte per script, all three update flags (symbolic)", "thorough: HashFuncs<=2, <=2 outputs, <=2 pushes")
+	meta("C04", []string{
+		"HMAC-SHA512, SHA-256, RIPEMD-160 are uninterpreted functions; secp256k1 is idealised: k*G and point addition are uninterpreted functions of their byte arguments, ParsePubKey applies bchec's format-byte rules with curve membership/decompression uninterpreted, serialisers are format||X||Y (harness/hdkeychain/stubs.go)",
+		"the parent key satisfies the package's representation invariant: private key = 32 bytes with value in [1,n-1], public key = 33 bytes accepted by ParsePubKey, chain code 32 bytes, fingerprint 4 bytes (established by NewMaster, Child and NewKeyFromString; one Child step from such a key is the inductive step for paths of any length)",
+		"(a+b) mod n is computed as a conditional subtraction; its side condition a+b < 2n is itself an obligation",
+		"Base58 is a recording stub (the bytes handed to base58.Encode are compared)",
+		"counterexamples behind the idealised HMAC are confirmed natively by walking the child index from the model's value (up to 8192 derivations)",
+	}, []string{"a child private scalar equal to 0 ((IL+k) mod n = 0) is not refused by Child although BIP32 declares it invalid: one HMAC value in 2^256, cannot be exhibited", "neuter/derive commutation (needs the group-homomorphism axiom; not encoded)", "the hash and curve primitives themselves"},
+		"all parent keys, all 2^32 indices (symbolic), private and public; seed lengths 0..66", "same")
+	meta("C05", []string{
+		"crypto idealised and Base58 stubbed as in C04; natively the checksum bytes of a model are recomputed with the real double-SHA256 before parsing",
+		"derived private keys are assumed non-zero and derived public keys on the curve (contract of the idealised curve)",
+	}, []string{"payload lengths outside the tier list", "Base58 itself (C07)"},
+		"keys built field by field and keys produced by one Child step; decoded payload lengths {0,4,78,81,82,83}", "decoded payload lengths 0..90")
+	meta("C06", []string{"crypto idealised and Base58 stubbed as in C04", "scalars are 32 symbolic bytes with value in [1,n-1] (all leading-zero counts)"},
+		[]string{"payload lengths outside the tier list"},
+		"all scalars x {compressed,uncompressed} x {6 nets, arbitrary net byte}; decoded payload lengths {0,4,36,37,38,39}", "decoded payload lengths 0..45")
+	meta("C07", []string{
+		"base58: bytes and characters are Int-mode values (mathematical integers in [0,255]); big.Int is an SMT Int; the tables alphabet/b58 are uninterpreted functions with range and inverse lemmas that the engine verifies on the real table contents on every run (if they do not hold, exact 256-way definitions are used instead)",
+		"Base58Check is checked on an abstract Base58 boundary (recording stub), double-SHA256 uninterpreted",
+		"bech32 reference: transcription of the BIP173 reference code in harness/bech32/c07.go",
+	}, []string{"byte strings / character strings longer than the tier bound", "ConvertBits inverse for pairs other than 8<->5"},
+		"base58: <=5 bytes / <=4 characters; Base58Check payload <=6; bech32 hrp <=2 chars, data <=3 symbols, every rejection rule behind the checksum wall (case, unprintable, empty hrp, short data, foreign data char), lengths 89..92; ConvertBits <=4 bytes / <=5 groups, all (from,to) in 0..9", "base58 <=10 bytes / <=8 characters; bech32 hrp<=4, data <=10")
+	meta("C08", []string{
+		"dependency code (encoding/json, OpenBazaar jsonpb, wire decoders, txscript, base64/hex decoders) is outside; where a harness needs its result it is a stub returning an arbitrary value",
+		"an allocation sized by a symbolic count must not exceed 4096 elements for inputs of <= 6 bytes (gcs harnesses); other allocations have concrete sizes per path",
+		"termination: every loop carries an unwinding bound (4096); exceeding it on a feasible path is reported",
+	}, []string{"inputs longer than the tier bounds", "time complexity beyond 'no path exceeds the unwinding bound'"},
+		"cashaddr: 1..3 letter prefixes x 0..9 symbols; DecodeAddress on arbitrary ASCII strings <=4 bytes and prefix+<=9 symbols x 6 nets; filter-load 0..36000 bytes x HashFuncs {0,1,2,50}; gcs <=3 / <=6 bytes, arbitrary N,P,M; JSON trees depth 2 width 2", "larger strings")
+	meta("C15", []string{"crypto idealised and Base58 stubbed as in C04", "histories: one derivation (Child / Neuter / String+parse) followed by one of Zero(derived), Zero(original), SetNet, Child"},
+		[]string{"longer histories; NewExtendedKey with caller-owned buffers (documented custom API)"},
+		"two-step histories over {Child,Neuter,parse} x {Zero,Zero,SetNet,Child}, private and public, cached and uncached public key", "same plus a second derivation after Child")
+	meta("C16", []string{
+		"wire.MsgTx.TxHash, MsgBlock.BlockHash/Serialize/SerializeSize/Deserialize/DeserializeTxLoc are stubs: arbitrary hashes, an arbitrary 3-byte serialisation, Deserialize consumes exactly the serialisation and yields the message (natively the harness uses a real block and the real functions)",
+	}, []string{"TxLoc contents (stubbed)", "blocks with more than 2 transactions / histories longer than the tier bound"},
+		"0..2 transactions, 4 constructors (incl. trailing byte), 2 accessor calls with symbolic index", "3 accessor calls")
 	meta("C11", []string{
 		"double-SHA256 is an uninterpreted, collision-free function (pairwise injectivity lemmas on each path)",
 		"transaction ids are symbolic except for a distinct concrete first byte (no two transactions of a block share an id)",
